@@ -221,6 +221,31 @@ def check_environments():
     return None, None
 
 
+def check_skewed_replication():
+    """integer sample weights are equivalent to replicating points - also when the weights are highly skewed (one or a few heavy points,
+    geometric weights), and for the covariances, not only weights and means"""
+    r = np.random.RandomState(14)
+    for d in (2, 3):
+        X = np.vstack([r.standard_normal((25, d)) * 0.3, r.standard_normal((25, d)) * 0.3 + 3.0])
+        n = len(X)
+        fams = (("one heavy", np.r_[40, np.ones(n - 1)]), ("few heavy", np.where(np.arange(n) % 11 == 0, 25, 1)), ("geometric", np.maximum(1, (64 * 0.7 ** np.arange(n)).astype(int))),
+                ("flat 2", np.full(n, 2)))
+        for fname, m in fams:
+            m = np.asarray(m, dtype=int)
+            Xr = np.repeat(X, m, axis=0)
+            for ct in ("full", "diag"):
+                for K in (1, 2):
+                    a = GaussianMixture(n_components=K, covariance_type=ct, random_state=42).fit(X, sample_weight=m.astype(float))
+                    b = GaussianMixture(n_components=K, covariance_type=ct, random_state=42).fit(Xr)
+                    oa, ob = np.argsort(a.means_[:, 0]), np.argsort(b.means_[:, 0])
+                    if not (np.allclose(a.weights_[oa], b.weights_[ob], atol=1e-5) and np.allclose(a.means_[oa], b.means_[ob], atol=1e-5)
+                            and np.allclose(np.asarray(a.covariances_)[oa], np.asarray(b.covariances_)[ob], rtol=1e-4, atol=1e-6)):
+                        dev = float(np.abs(np.asarray(a.covariances_)[oa] - np.asarray(b.covariances_)[ob]).max())
+                        return (f"integer weights ({fname}) vs replicated points, {ct} covariances, K={K}, d={d}: the fits differ (largest covariance entry deviation {dev:.3g}, "
+                                f"weights {np.round(a.weights_[oa], 5).tolist()} vs {np.round(b.weights_[ob], 5).tolist()})"), {"weights": fname, "covariance_type": ct, "K": K, "d": d}
+    return None, None
+
+
 def check_dimension_sequence():
     """one default-configured estimator reused for data sets of increasing dimension: the minimum cluster size is 2*d of the data set
     being fitted (the constructor was given min_points=None), whatever was fitted before"""
@@ -249,7 +274,7 @@ def main():
     p = json.load(open(sys.argv[1]))
     rng = np.random.RandomState(int(p.get("seed", 0)))
     tried = 0
-    for fn, args in ((check_integer_data, (np.random.RandomState(77),)), (check_dimension_sequence, ()), (check_environments, ())):
+    for fn, args in ((check_integer_data, (np.random.RandomState(77),)), (check_dimension_sequence, ()), (check_environments, ()), (check_skewed_replication, ())):
         tried += 1
         try:
             e, what = fn(*args)
